@@ -280,10 +280,11 @@ def narrow_tagged(rec, prop, known=None):
     known = [k for k in (known or []) if k.get('property') == prop and k.get('harness') == rec['name'] and k.get('match')]
     rec['known_findings'] = []
     for k in known:
-        hit = [t for t in mine if k['match'] in t['line']]
+        lits = k['match'].split('&&')      # every literal must occur in the report of the failing case
+        hit = [t for t in mine if all(l_ in t['line'] for l_ in lits)]
         if hit:
             rec['known_findings'].append(dict(finding=k['text'], cases=len(hit), first=hit[0]['line'][:700]))
-            mine = [t for t in mine if k['match'] not in t['line']]
+            mine = [t for t in mine if not all(l_ in t['line'] for l_ in lits)]
     other = [t for t in rec['tagged_fails'] if prop not in t['tags']]
     rec['other_properties_failing'] = sorted(set(x for t in other for x in t['tags']))
     if not rec['tagged_fails']:
